@@ -107,7 +107,7 @@ def alias_values(ctx, r):
     import numpy
     import awkward as ak
     dis, fails, n = [], [], 0
-    sigs = C.ALLSIGS if ctx.tier == "thorough" else C.SIG2 + r.sample(C.SIG3, 3) + r.sample(C.SIG4, 5)
+    sigs = C.ALLSIGS          # every stored system in every tier
     for sig in sigs:
         rows = [C.cart_to_stored(sig, p) for p in C.strata_points(len(sig) + 1, r, n_random=2)[:5]]
         for tag, arr in (("numpy", C.np_array("m", sig, rows)), ("awkward", C.ak_array("m", sig, rows))):
